@@ -99,6 +99,7 @@ type world struct {
 
 type planOp struct {
 	kind  string // inst | add | regcb | unregcb | span | sleep
+	held  bool   // go through the provider object the task obtained when it started (not a fresh global lookup)
 	meter int
 	name  int
 	ikind int
@@ -114,7 +115,7 @@ func (engine) Body(r *simdrv.Run) {
 	for t := range plans {
 		n := 3 + r.Cfg(9)
 		for i := 0; i < n; i++ {
-			op := planOp{kind: []string{"inst", "inst", "add", "add", "add", "regcb", "unregcb", "span", "span"}[r.Cfg(9)], meter: r.Cfg(2), name: r.Cfg(3), ikind: r.Cfg(len(instKinds))}
+			op := planOp{kind: []string{"inst", "inst", "add", "add", "add", "regcb", "unregcb", "span", "span"}[r.Cfg(9)], meter: r.Cfg(2), name: r.Cfg(3), ikind: r.Cfg(len(instKinds)), held: r.Cfg(3) == 0}
 			if r.Cfg(6) == 0 {
 				op.sleep = time.Millisecond
 			}
@@ -148,11 +149,15 @@ func (engine) Body(r *simdrv.Run) {
 			return nil
 		}
 	}
+	heldMP := map[string]metric.MeterProvider{}
 	newHandle := func(task string, op planOp) *handle {
 		key := instKey{meter: fmt.Sprintf("m%d", op.meter), name: fmt.Sprintf("i%d", op.name), kind: instKinds[op.ikind]}
 		key.name += "_" + key.kind // one instrument name per kind: no SDK-side kind conflicts
 		h := &handle{key: key, inv: sim.Stamp()}
 		m := otel.Meter(key.meter)
+		if op.held && heldMP[task] != nil {
+			m = heldMP[task].Meter(key.meter)
+		}
 		h.m = m
 		switch key.kind {
 		case "ci":
@@ -203,6 +208,9 @@ func (engine) Body(r *simdrv.Run) {
 		sim.Spawn(name, func() {
 			var mine []*handle
 			var myCbs []*cbReg
+			// provider objects obtained once, up front (typically before the SDK is installed)
+			tp0 := otel.GetTracerProvider()
+			heldMP[name] = otel.GetMeterProvider()
 			for _, op := range plan {
 				if op.sleep > 0 {
 					simrt.Sleep(op.sleep, simdrv.PtSleep)
@@ -255,7 +263,11 @@ func (engine) Body(r *simdrv.Run) {
 				case "span":
 					sp := &spanOp{name: fmt.Sprintf("%s-s%d", name, len(w.spans)), inv: sim.Stamp()}
 					w.spans = append(w.spans, sp)
-					_, s := otel.Tracer(fmt.Sprintf("t%d", op.meter)).Start(context.Background(), sp.name)
+					tr := otel.Tracer(fmt.Sprintf("t%d", op.meter))
+					if op.held {
+						tr = tp0.Tracer(fmt.Sprintf("t%d", op.meter))
+					}
+					_, s := tr.Start(context.Background(), sp.name)
 					s.End()
 					sp.ret = sim.Stamp()
 					r.Log("%d span %s task=%s (invoked %d)", sp.ret, sp.name, name, sp.inv)
